@@ -83,6 +83,7 @@ type RaceScenario struct {
 	LogFrom  int64   `json:"log_from"` // byte range of the race log written while this scenario ran
 	LogTo    int64   `json:"log_to"`
 	Found    []Found `json:"found,omitempty"` // oracle violations observed in the free runs (panic / divergence / stuck)
+	Warned   []Found `json:"warned,omitempty"`
 	Outcomes int     `json:"distinct_outcomes"`
 	WallMS   int64   `json:"wall_ms"`
 }
@@ -150,7 +151,11 @@ func runRace(job *Job) *RaceOut {
 		}
 		sort.Strings(ks)
 		for _, k := range ks {
-			rs.Found = append(rs.Found, *sigs[k])
+			if sigs[k].Kind == "handler-panic" {
+				rs.Warned = append(rs.Warned, *sigs[k])
+			} else {
+				rs.Found = append(rs.Found, *sigs[k])
+			}
 		}
 		rs.Outcomes = len(outcomes)
 		rs.LogTo = logSize(logFile)
@@ -182,15 +187,23 @@ func (r *RaceReport) IsMapRace() bool { return r.A.MapOp != "" || r.B.MapOp != "
 // InRepo tells whether both accesses come from repository code.
 func (r *RaceReport) InRepo() bool { return r.A.Loc != "" && r.B.Loc != "" }
 
-// Signature is kind + the pair of code locations.
+// Signature is kind + the pair of code locations (functions; the line numbers, which depend on
+// which statement of the function happened to collide, are in the report text).
 func (r *RaceReport) Signature() string {
-	l := []string{locOrTop(r.A), locOrTop(r.B)}
+	l := []string{funcOnly(locOrTop(r.A)), funcOnly(locOrTop(r.B))}
 	sort.Strings(l)
 	kind := "data-race"
 	if r.IsMapRace() {
 		kind = "map-race"
 	}
 	return kind + "|" + l[0] + "|" + l[1]
+}
+
+func funcOnly(loc string) string {
+	if i := strings.Index(loc, " "); i > 0 {
+		return loc[:i]
+	}
+	return loc
 }
 
 func locOrTop(a RaceAccess) string {
